@@ -301,7 +301,11 @@ def run_check(prop: str, tier: str, seed: int) -> int:
         print(f"VIOLATION property={prop} replay={path}")
         print(f"  clause={viol['clause']} {viol['msg'][:600]}")
         rc = 1
+    printed = set()
     for f in known:
+        if f["id"] in printed:
+            continue
+        printed.add(f["id"])
         if known_hits.get(f["id"], 0) > 0 or f.get("always_report", True):
             print(f"KNOWN-FINDING: property={prop} {f['id']} {f['title']} (hits this run: {known_hits.get(f['id'], 0)})")
     if not samples:
